@@ -48,6 +48,8 @@ use vh::report::Tier;
 mod base_example;
 #[path = "/repo/examples/nft-consecutive/src/contract.rs"]
 mod consecutive_example;
+#[path = "../shared/nft_wrap.rs"]
+mod nft_wrap;
 #[path = "/repo/examples/nft-enumerable/src/contract.rs"]
 mod enumerable_example;
 
@@ -246,6 +248,8 @@ enum Flavour {
     Base,
     Enumerable,
     Consecutive,
+    /// Consecutive through the traits' default methods (wrapper contract): the override glue
+    ConsecutiveDefaults,
 }
 
 #[derive(Clone)]
@@ -280,6 +284,9 @@ struct Inst {
     e: Env,
     c: Address,
     acc: [Address; 4],
+    /// the contract's id of the tracked token k is k + off (off = 1 in the glue world, where the tracked
+    /// tokens sit between an inferred-owner neighbour below and an explicit-owner neighbour above)
+    off: u32,
 }
 
 impl Inst {
@@ -297,12 +304,12 @@ impl Inst {
 fn args_of(i: &Inst, op: &Op) -> Option<(&'static str, SVec<Val>, Sg)> {
     let e = &i.e;
     Some(match op {
-        Op::Approve { approver, approved, id, live, by } => ("approve", (i.a(*approver), i.a(*approved), *id, *live).into_val(e), *by),
+        Op::Approve { approver, approved, id, live, by } => ("approve", (i.a(*approver), i.a(*approved), *id + i.off, *live).into_val(e), *by),
         Op::ApproveAll { owner, op, live, by } => ("approve_for_all", (i.a(*owner), i.a(*op), *live).into_val(e), *by),
-        Op::Transfer { from, to, id, by } => ("transfer", (i.a(*from), i.a(*to), *id).into_val(e), *by),
-        Op::TransferFrom { spender, from, to, id, by } => ("transfer_from", (i.a(*spender), i.a(*from), i.a(*to), *id).into_val(e), *by),
-        Op::Burn { from, id, by } => ("burn", (i.a(*from), *id).into_val(e), *by),
-        Op::BurnFrom { spender, from, id, by } => ("burn_from", (i.a(*spender), i.a(*from), *id).into_val(e), *by),
+        Op::Transfer { from, to, id, by } => ("transfer", (i.a(*from), i.a(*to), *id + i.off).into_val(e), *by),
+        Op::TransferFrom { spender, from, to, id, by } => ("transfer_from", (i.a(*spender), i.a(*from), i.a(*to), *id + i.off).into_val(e), *by),
+        Op::Burn { from, id, by } => ("burn", (i.a(*from), *id + i.off).into_val(e), *by),
+        Op::BurnFrom { spender, from, id, by } => ("burn_from", (i.a(*spender), i.a(*from), *id + i.off).into_val(e), *by),
         Op::Advance(_) => return None,
     })
 }
@@ -355,6 +362,9 @@ impl Nft {
     }
 
     fn owner_of(&self, i: &Inst, id: u32) -> Result<Option<W>, Violation> {
+        self.owner_of_real(i, id + i.off)
+    }
+    fn owner_of_real(&self, i: &Inst, id: u32) -> Result<Option<W>, Violation> {
         let a: SVec<Val> = (id,).into_val(&i.e);
         match view(&i.e, &i.c, "owner_of", a) {
             Err(_) => Ok(None),
@@ -370,7 +380,7 @@ impl Nft {
 
     /// Ok(None): none (or, for a token without owner, a refusal); Ok(Some(w)): approved account
     fn get_approved(&self, i: &Inst, id: u32, exists: bool) -> Result<Option<W>, Violation> {
-        let a: SVec<Val> = (id,).into_val(&i.e);
+        let a: SVec<Val> = (id + i.off,).into_val(&i.e);
         match view(&i.e, &i.c, "get_approved", a) {
             Err(x) => {
                 ensure!(!exists, "getter", "get_approved({}) of an existing token failed: {:?}", id, x);
@@ -398,6 +408,22 @@ impl Nft {
     /// all getters of the property against the model
     fn compare(&self, i: &Inst, m: &Model, after: &str, cx: &mut StepCtx<Self>) -> Result<(), Violation> {
         let mut n = 0u64;
+        if i.off > 0 {
+            // the neighbours of the tracked tokens are never named in any call: nobody authorized moving them
+            for (real, want) in [(0u32, A), (3u32, B)] {
+                let o = self.owner_of_real(i, real)?;
+                ensure!(
+                    o == Some(want),
+                    "move-authority",
+                    "after {}: token {} (never named in any call, minted to {:?}) now reports owner {:?}: it changed hands without any authorization of its owner [{}]",
+                    after,
+                    real,
+                    want,
+                    o,
+                    m.describe()
+                );
+            }
+        }
         for id in 0..TOKENS {
             let o = self.owner_of(i, id as u32)?;
             ensure!(o == m.owner[id], "owner-lockstep", "owner_of({}) after {}: contract {:?}, model {:?} [{}]", id, after, o, m.owner[id], m.describe());
@@ -522,6 +548,7 @@ impl World for Nft {
             Flavour::Base => "nft-base",
             Flavour::Enumerable => "nft-enumerable",
             Flavour::Consecutive => "nft-consecutive",
+            Flavour::ConsecutiveDefaults => "nft-consecutive-default-methods",
         };
         format!(
             "{f}/{}{}{}@{}",
@@ -555,8 +582,10 @@ impl World for Nft {
             Flavour::Base => e.register(base_example::ExampleContract, ctor),
             Flavour::Enumerable => e.register(enumerable_example::ExampleContract, ctor),
             Flavour::Consecutive => e.register(consecutive_example::ExampleContract, ctor),
+            Flavour::ConsecutiveDefaults => e.register(nft_wrap::ConsNft, ctor),
         };
-        let i = Inst { e, c, acc };
+        let off = if matches!(self.flavour, Flavour::ConsecutiveDefaults) { 1 } else { 0 };
+        let i = Inst { e, c, acc, off };
         let mint = |f: &str, a: SVec<Val>| {
             call_mocked(&i.e, &i.c, f, a).unwrap_or_else(|x| panic!("seed mint failed: {x:?}"));
         };
@@ -564,6 +593,12 @@ impl World for Nft {
             Flavour::Base | Flavour::Enumerable => {
                 mint("mint", (i.a(A),).into_val(&i.e));
                 mint("mint", (i.a(B),).into_val(&i.e));
+            }
+            Flavour::ConsecutiveDefaults => {
+                // ids 0,1 of A | 2,3 of B; tracked: 1 (explicit owner entry, inferred neighbour 0 below) and
+                // 2 (owner inferred from the entry of 3)
+                mint("batch_mint", (i.a(A), 2u32).into_val(&i.e));
+                mint("batch_mint", (i.a(B), 2u32).into_val(&i.e));
             }
             Flavour::Consecutive => {
                 // ids 0 | 1,2: the owner of token 1 is inferred from the explicit owner entry of token 2
@@ -943,11 +978,15 @@ fn main() {
                     run(r, world(f, cfg_narrow(&ONE_LIVE), false), envd("C11_D", 4));
                 }
                 for f in flavours {
-                    run(r, world(f, cfg_narrow(&TWO_LIVES), true), envd("C11_DS", 3));
+                    // approvals already in place: also transfer a token to its own holder (the approval must go)
+                    run(r, world(f, Cfg { self_to: true, ..cfg_narrow(&TWO_LIVES) }, true), envd("C11_DS", 3));
                 }
                 for f in flavours {
                     run(r, world16(f, cfg_narrow(&ONE_LIVE)), envd("C11_D16", 3));
                 }
+                // the override glue of the consecutive flavour (wrapper using the traits' default methods)
+                run(r, world(Flavour::ConsecutiveDefaults, cfg_narrow(&ONE_LIVE), false), envd("C11_DG", 4));
+                run(r, world(Flavour::ConsecutiveDefaults, Cfg { self_to: true, ..cfg_narrow(&TWO_LIVES) }, true), envd("C11_DGS", 3));
             }
             Tier::Thorough => {
                 for f in flavours {
@@ -960,8 +999,10 @@ fn main() {
                     run(r, world(f, cfg_wide(), false), envd("C11_DW", 3));
                 }
                 for f in flavours {
-                    run(r, world(f, cfg_narrow(&TWO_LIVES), true), envd("C11_DS", 4));
+                    run(r, world(f, Cfg { self_to: true, ..cfg_narrow(&TWO_LIVES) }, true), envd("C11_DS", 4));
                 }
+                run(r, world(Flavour::ConsecutiveDefaults, cfg_narrow(&ONE_LIVE), false), envd("C11_DG", 4));
+                run(r, world(Flavour::ConsecutiveDefaults, Cfg { self_to: true, ..cfg_narrow(&TWO_LIVES) }, true), envd("C11_DGS", 3));
                 for f in flavours {
                     run(r, world16(f, cfg_narrow(&ONE_LIVE)), envd("C11_D16", 4));
                 }
